@@ -1880,6 +1880,8 @@ class FnTranslator:
                 return "U32MAX"
             if p == ["i32", "MAX"]:
                 return "2147483647%Z"
+            if p == ["char", "REPLACEMENT_CHARACTER"]:
+                return "65533"
             ev = self.enum_variant(p)
             if ev and not ev[2]:
                 return "%s_%s" % (ev[0], ev[1])
@@ -3265,7 +3267,9 @@ MODULES = {
                       (None, None, "str_lt"), (None, None, "str_le"), (None, None, "str_is_digit"),
                       (None, None, "str_to_code"), (None, None, "str_from_code"), (None, None, "str_to_int"),
                       (None, None, "good_char"), (None, None, "good_string"), ("SmtString", None, "is_good"),
-                      ("SmtString", None, "char")],
+                      ("SmtString", None, "char"),
+                      (None, None, "all_unicode"), (None, None, "map_to_unicode"),
+                      ("SmtString", None, "is_unicode"), ("SmtString", None, "to_unicode_string")],
     },
     "StrSearchGen": {
         "files": ["smt_strings.rs", "matcher.rs"],
